@@ -6,6 +6,7 @@ all_features / features_of_type call is compared with a brute-force filter of th
 its sequence is checked for sortedness under SQLite BINARY semantics (gvmon/models/C11.py).  icontract
 postcondition on the real helpers.make_query: placeholders == args.
 """
+import os
 from collections import Counter
 
 from gvmon.gen import C11 as G
@@ -27,7 +28,14 @@ RULE = ("feature sets of 12-90 lines over 2-6 seqids (mixed case, non-ASCII), 2-
         "id / by Feature) and in-place rewrites through add_relation(parent_func=, child_func=) adding attributes, "
         "optionally primed before and reopened after, then full iteration, order_by='file_order' (str/tuple/list/"
         "reverse), featuretypes(), seqids(), counts per type and 5 random queries are judged against the surviving "
-        "features.  non-trivial = expected result has >= 3 rows and (if ordered) >= 2 distinct sort keys; "
+        "features.  Feature-set flavours rotate (of 6: 2 plain, 2 odd, 1 'empty', 1 'norm'): 'empty' = seqid and/or source "
+        "is the EMPTY string on some lines (or every seqid is; imported from a file), limit= naming the empty seqid; 'norm' "
+        "= seqids / featuretypes / sources that differ only by Unicode normalisation form (NFC vs NFD) or only in case, "
+        "queried by either twin and by twins that are not stored.  Per feature set 1-2 'encodings' cases: the database is "
+        "written to a file and opened with FeatureDB(path, default_encoding=e) for e in utf-8, latin-1, ascii (text_factory "
+        "untouched); seqids(), featuretypes(), counts, the full iteration and 6 queries are judged against the model on "
+        "every handle and must agree between the handles in values (id, seqid, source, featuretype, attributes, extra, "
+        "printed line) and in order.  non-trivial = expected result has >= 3 rows and (if ordered) >= 2 distinct sort keys; "
         "distinct = distinct (feature set, query) pairs / distinct (feature set, history)")
 REQUIRED = ["queries executed", "calls of the real query methods", "result rows compared", "sortedness checks (ascending)",
             "sortedness checks (descending, single column)", "str-vs-tuple order_by comparisons",
@@ -55,7 +63,29 @@ REQUIRED = ["queries executed", "calls of the real query methods", "result rows 
             "full iterations after a history compared with the original relative input order",
             "order_by='file_order' after a history compared with the original relative input order",
             "distinct lists compared after a history", "queries on a database with a history",
-            "history: database reopened before the queries"]
+            "history: database reopened before the queries",
+            # the empty string as a value
+            "feature sets: empty seqid stored", "feature sets: empty source stored", "feature sets: every seqid is empty",
+            "seqids() comparisons with '' among the values present", "queries whose limit= names the empty seqid",
+            "sortedness checks with the empty string among the sort keys",
+            "seqids() after deletes / a history with '' among the values present",
+            # normalisation forms, case
+            "feature sets: seqids that differ only by normalisation form (NFC/NFD) stored",
+            "feature sets: featuretypes that differ only by normalisation form (NFC/NFD) stored",
+            "feature sets: sources that differ only by normalisation form (NFC/NFD) stored",
+            "feature sets: seqids that differ only in case stored", "feature sets: featuretypes that differ only in case stored",
+            "featuretype argument with a stored NFC/NFD twin: as a plain string",
+            "featuretype argument with a stored NFC/NFD twin: inside a collection",
+            "featuretype argument that is the NFC/NFD or case twin of a stored type, itself not stored",
+            "featuretype argument with a stored case twin", "limit= seqid with a stored NFC/NFD twin",
+            "sortedness checks with NFC/NFD twins among the sort keys",
+            "distinct lists compared on a set with NFC/NFD twins",
+            "count_features_of_type comparisons for a type with a stored NFC/NFD twin",
+            # default_encoding
+            "encodings: databases opened under utf-8 / latin-1 / ascii", "encodings: handles opened with default_encoding=",
+            "encodings: databases with non-ASCII seqids / featuretypes / sources stored",
+            "encodings: queries judged on every handle", "encodings: result sequences compared between the handles",
+            "encodings: feature values compared with the model", "encodings: distinct lists compared on every handle"]
 REQUIRED_CLASSES = ["order_by=" + c for c in M.ORDERABLE] + ["order_by: none", "order_by: 2 columns", "order_by: 3 columns",
                                                              "featuretype as str", "featuretype as list",
                                                              "featuretype as tuple", "featuretype as set",
@@ -67,7 +97,9 @@ REQUIRED_CLASSES = ["order_by=" + c for c in M.ORDERABLE] + ["order_by: none", "
                                                              "long featuretype collection: order_by + reverse",
                                                              "featuretype containing a comma (str)",
                                                              "featuretype containing a comma (collection)",
-                                                             "history: deletes and rewrites"]
+                                                             "history: deletes and rewrites",
+                                                             "feature set: empty", "feature set: norm",
+                                                             "same database under default_encoding utf-8 / latin-1 / ascii"]
 ASSUMPTIONS = [
     "sortedness is judged under SQLite BINARY semantics: NULL first, integers numerically, text by UTF-8 bytes; "
     "length = end - start (NULL when a coordinate is '.'); file_order = position in the input",
@@ -82,6 +114,13 @@ ASSUMPTIONS = [
     "after deletes and in-place rewrites (add_relation with parent_func/child_func) the 'input order' and 'file_order' of "
     "the surviving features is their original relative order in the input; a history whose rewrite did not reach the "
     "stored row is skipped (C10's subject)",
+    "the empty string is a value like any other in seqid / source (distinct lists, limit=, counts, sort keys: '' sorts "
+    "before every other text); feature sets with an empty column are imported from a file (from_string= dedents its "
+    "argument, which is not this property's subject)",
+    "text is compared code point by code point: values that differ only by Unicode normalisation form or only in case are "
+    "different values in filters, distinct lists and counts, and sort by their code points (= UTF-8 bytes)",
+    "default_encoding only says how bytes keys are decoded; with str arguments every result (values and order, ties "
+    "included: same file, same statement) is the same under utf-8, latin-1 and ascii; text_factory is left at its default",
 ]
 QUICK_SHARDS = 4
 THOROUGH_SHARDS = 16
@@ -105,6 +144,23 @@ def report(ctx, case, reason_class, detail):
     ctx.violation(case, detail)
 
 
+def build(ctx, SET, dbfn):
+    """Import a feature set with the real create_db.  Sets with an empty column go through a file: from_string=
+    dedents its argument (lines that all start with a tab would lose it)."""
+    import gffutils
+
+    if SET.get("flavor") != "empty":
+        return gffutils.create_db(SET["text"], dbfn, from_string=True)
+    path = ctx.tmp(".gff")
+    with open(path, "w", encoding="utf-8", newline="") as fh:
+        fh.write(SET["text"])
+    try:
+        return gffutils.create_db(path, dbfn)
+    finally:
+        if os.path.exists(path):
+            os.unlink(path)
+
+
 def get_db(ctx, setp):
     import gffutils
     from gvmon.run import Inconclusive
@@ -117,7 +173,7 @@ def get_db(ctx, setp):
             except Exception:
                 pass
         SET = G.make_set(setp["seed"], setp["n"], setp.get("flavor"))
-        db = gffutils.create_db(SET["text"], ":memory:", from_string=True)
+        db = build(ctx, SET, ":memory:")
         raw = db.conn.execute("SELECT id, seqid, source, featuretype, start, end, score, strand, frame, attributes, "
                               "extra FROM features").fetchall()
         raw = {r[0]: tuple(r) for r in raw}
@@ -131,6 +187,8 @@ def get_db(ctx, setp):
             row["attributes"], row["extra"] = r[9], r[10]
         ctx.mon("databases built")
         ctx.mon("features imported", len(raw))
+        for t in SET["traits"]:
+            ctx.mon("feature sets: " + t)
         _DBS[key] = (db, SET, {r["id"]: r for r in SET["rows"]})
         sqltrace.reset()
         contracts.drain()
@@ -152,7 +210,7 @@ def ft_arg(q):
     return {"list": list, "tuple": tuple, "set": set}[q["ft_form"]](ft_values(q))
 
 
-def call(db, q, order_by):
+def call(db, q, order_by, features=False):
     kw = dict(strand=q["strand"], order_by=order_by, reverse=q["reverse"])
     if q["limit"] is not None:
         s, a, b = q["limit"]
@@ -162,7 +220,7 @@ def call(db, q, order_by):
         it = db.all_features(featuretype=ft_arg(q), **kw)
     else:
         it = db.features_of_type(ft_arg(q), **kw)
-    return [f.id for f in it]
+    return it if features else [f.id for f in it]
 
 
 def execute_after_delete(ctx, case):
@@ -172,7 +230,7 @@ def execute_after_delete(ctx, case):
 
     SET = G.make_set(case["set"]["seed"], case["set"]["n"], case["set"].get("flavor"))
     rows = SET["rows"]
-    db = gffutils.create_db(SET["text"], ":memory:", from_string=True)
+    db = build(ctx, SET, ":memory:")
     try:
         list(db.featuretypes()), list(db.seqids()), db.count_features_of_type()
         types = sorted(set(r["featuretype"] for r in rows))
@@ -185,6 +243,8 @@ def execute_after_delete(ctx, case):
             db.delete(v if i % 2 else db[v], make_backup=False)
         left = [r for r in rows if r["id"] not in set(victims)]
         ctx.mon("distinct lists compared after deletes")
+        if any(r["seqid"] == "" for r in left):
+            ctx.mon("seqids() after deletes / a history with '' among the values present")
         checks = [("featuretypes", sorted(db.featuretypes()), sorted(set(r["featuretype"] for r in left))),
                   ("seqids", sorted(db.seqids()), sorted(set(r["seqid"] for r in left))),
                   ("count_features_of_type()", db.count_features_of_type(), len(left)),
@@ -214,6 +274,8 @@ def execute(ctx, case):
         return execute_after_delete(ctx, case)
     if case["kind"] == "history":
         return execute_history(ctx, case)
+    if case["kind"] == "encodings":
+        return execute_encodings(ctx, case)
     db, SET, by_id = get_db(ctx, case["set"])
     return judge_query(ctx, case, db, SET["rows"], by_id, case["query"])
 
@@ -336,7 +398,7 @@ def execute_history(ctx, case):
     db = None
     nexp = 0
     try:
-        db = gffutils.create_db(SET["text"], dbfn, from_string=True)
+        db = build(ctx, SET, dbfn)
         if case.get("prime"):
             list(db.featuretypes()), list(db.seqids()), db.count_features_of_type(), [f.id for f in db.all_features()]
         gone, touched = set(), set()
@@ -398,6 +460,8 @@ def execute_history(ctx, case):
         ctx.mon("featuretypes() comparisons")
         ctx.mon("seqids() comparisons")
         ctx.mon("distinct lists compared after a history")
+        if any(r["seqid"] == "" for r in left):
+            ctx.mon("seqids() after deletes / a history with '' among the values present")
         checks.append(("featuretypes", "featuretypes()", sorted(db.featuretypes()), sorted(set(r["featuretype"] for r in left))))
         checks.append(("seqids", "seqids()", sorted(db.seqids()), sorted(set(r["seqid"] for r in left))))
         checks.append(("count-total", "count_features_of_type()", db.count_features_of_type(), len(left)))
